@@ -1,7 +1,7 @@
 (** * C03 -- in all-compliant mode every instance conforms to its extracted shape *)
 From Coq Require Import List Ascii String ZArith NArith Bool.
 From Shexer Require Import Lib.PyStr Lib.Dict Lib.Bin64 Gen.Consts Spec.Rdf Spec.ShexSem Model.Tracker Model.Profiler
-     Model.Freq Model.FreqInst Model.Shexing Model.Run Model.SchemaOf Model.C03Dom Proofs.Bin64Round Proofs.FreqLaws Proofs.ConformProofs Proofs.ConformSat.
+     Model.Freq Model.FreqInst Model.Shexing Model.Run Model.SchemaOf Model.C03Dom Proofs.Bin64Round Proofs.FreqLaws Proofs.ConformProofs Proofs.ConformSat Proofs.ConformModes.
 Import ListNotations.
 
 (** ** T1 -- switching the mode off never changes a cardinality.
@@ -27,6 +27,17 @@ Theorem C03_mode_off_keeps_cards : forall fa cfg thr P C shapes,
        exists b, In b (class_base fa cfg thr C ce) /\ same_core v b).
 Proof. exact mode_off_keeps_cards. Qed.
 Print Assumptions C03_mode_off_keeps_cards.
+
+(** T1, as a relation between the two runs: whenever the run with the mode ON
+    succeeds, the run with the mode OFF succeeds with the same shapes and the
+    same statements in the same order (direction, property, types, counts),
+    and a cardinality differs only where the ON run relaxed it
+    ([relax_card c] against [gen_card c] of the same selected cardinality). *)
+Theorem C03_mode_on_off : forall fa cfg thr P C L1,
+  shex fa (with_ac true cfg) thr P C = inl L1 ->
+  exists L0, shex fa (with_ac false cfg) thr P C = inl L0 /\ Forall2 (shape_rel cfg) L0 L1.
+Proof. exact mode_on_off. Qed.
+Print Assumptions C03_mode_on_off.
 
 (** ** T2 -- where a '?' comes from (shexing level, all inputs).
 
